@@ -40,12 +40,13 @@ type rtArgs struct {
 }
 
 type rtOut struct {
-	Skip    string   `json:"skip,omitempty"`
-	Fail    string   `json:"fail,omitempty"` // stable key
-	What    string   `json:"what,omitempty"`
-	Ok      bool     `json:"ok,omitempty"`
-	Covered []string `json:"covered,omitempty"`
-	Bytes   int      `json:"bytes,omitempty"`
+	Skip    string     `json:"skip,omitempty"`
+	Fail    string     `json:"fail,omitempty"` // stable key
+	What    string     `json:"what,omitempty"`
+	Ok      bool       `json:"ok,omitempty"`
+	Covered []string   `json:"covered,omitempty"`
+	Bytes   int        `json:"bytes,omitempty"`
+	Hist    *histTrace `json:"hist,omitempty"` // c09.history only
 }
 
 func (a rtArgs) req(file, content string) core.LoadReq {
